@@ -1249,7 +1249,7 @@ func (c *control) dirR(colon, at bool, params []any) {
 					words = append(words, one[d-'0'])
 				}
 			}
-			if zero {
+			if zero && 0 < len(trip) {
 				words = words[:len(words)-1]
 			}
 			if i < 0 {
